@@ -269,7 +269,11 @@ func verifC47Run(t *testing.T, quick, thorough int) {
 					noClaim = true
 					corr = append(corr, "nonpositive-amount")
 				case 7: // not an address
-					e.addrText = rapid.SampledFrom([]string{"", "erd1", "garbage", e.addrText[:len(e.addrText)-1], e.addrText + "q", "0x" + e.addrText}).Draw(rt, "garbage")
+					short := e.addrText
+				if len(short) > 0 {
+					short = short[:len(short)-1]
+				}
+				e.addrText = rapid.SampledFrom([]string{"", "erd1", "garbage", short, e.addrText + "q", "0x" + e.addrText}).Draw(rt, "garbage")
 					e.addrBytes = nil
 					noClaim = true
 					corr = append(corr, "garbage-address")
